@@ -102,6 +102,8 @@ func (w *World) resolveType(text string, pkg *types.Package) (string, types.Type
 		return arrSort(SBool), nil
 	case "intarr":
 		return arrSort(SInt), nil
+	case "strarr":
+		return arrSort(SStr), nil
 	case "ref":
 		return SInt, nil
 	case "error":
@@ -1025,9 +1027,14 @@ func (env *Env) evalCall(e *Expr) EV {
 		}
 		return EV{env.st.Heap("$cost"), SInt, intT}
 	case "errIsRange":
+		// errors.Is(e, strconv.ErrRange): a *ValidationError unwraps to its cause (one level is all the code builds)
 		argn(1)
 		x := env.eval(e.Args[0])
-		return EV{app("err_is_range", x.T), SBool, boolT}
+		vt := env.w.typePkgs["errors"].Scope().Lookup("ValidationError").Type()
+		isVE := and(not(eq(x.T, "0")), eq(app("dyntype", x.T), strconv.Itoa(env.w.typeID(typeName(types.NewPointer(vt))))))
+		st, _ := structOf(vt)
+		cause := env.selectField(x.T, vt, st, fieldIndex(st, "cause"))
+		return EV{ite(isVE, app("err_is_range", cause.T), app("err_is_range", x.T)), SBool, boolT}
 	case "isVE", "errType", "errFailure", "errUrl", "errDescr", "errCause":
 		argn(1)
 		x := env.eval(e.Args[0])
@@ -1038,6 +1045,12 @@ func (env *Env) evalCall(e *Expr) EV {
 		fname := map[string]string{"errType": "errorType", "errFailure": "failure", "errUrl": "url", "errDescr": "descr", "errCause": "cause"}[name]
 		s, _ := structOf(vt)
 		return env.selectField(x.T, vt, s, fieldIndex(s, fname))
+	case "asParams":
+		// the []*NameValuePair boxed in an interface value (argument of sort.SliceStable)
+		argn(1)
+		x := env.eval(e.Args[0])
+		nvp := env.w.typePkgs["url"].Scope().Lookup("NameValuePair").Type()
+		return EV{app("iface_slice", x.T), SSlice, types.NewSlice(types.NewPointer(nvp))}
 	case "dyntype":
 		argn(1)
 		x := env.eval(e.Args[0])
